@@ -125,13 +125,14 @@ func judgeCrashRun(s *Sim) []Violation {
 
 // recover runs the fixed recovery policy after a crash: no faults, everything in order, a bounded number
 // of background cycles (optionally a second crash in the middle), then reads every promise back.
-func recoverAndJudge(s *Sim, secondCrashCycle int) []Violation {
+func recoverAndJudge(s *Sim, secondCrashCycle int, downtime int64) []Violation {
 	var vs []Violation
 	add := func(code, f string, a ...any) { vs = append(vs, Violation{"C06", code, "", fmt.Sprintf(f, a...)}) }
 	s.D = D{}
 	s.Prof.FailBefore, s.Prof.FailAfter, s.Prof.RouterFail, s.Prof.SendFail, s.Prof.SendLose, s.Prof.Hold, s.Prof.Crash = 0, 0, 0, 0, 0, 0, 0
 	atCrash := s.Snaps[s.CurSnap()]
 	st := s.Cfg.SignalTimeout.Milliseconds()
+	s.Advance(downtime) // the process stays down for a while: occurrences, time-outs and leases fall due meanwhile
 	times := []int64{s.Now}
 	for k := 1; k <= 14; k++ {
 		s.Advance(st)
@@ -275,8 +276,13 @@ func TestC06(t *testing.T) {
 			rt.Fatalf("VIOLATION %s (crash point %d of %d)", v, k, K)
 		}
 		stats.Eval()
-		for _, v := range append(judgeCrashRun(base), filterProps(Judge(base), "C06")...) {
+		baseAll := Judge(base)
+		for _, v := range append(judgeCrashRun(base), filterProps(baseAll, "C06")...) {
 			fail(base, v, -1)
+		}
+		baseMsgs := map[string]bool{}
+		for _, v := range baseAll {
+			baseMsgs[v.Prop+v.Code] = true
 		}
 		baseSig := ShapeSignature(base)
 		base.Close()
@@ -314,12 +320,20 @@ func TestC06(t *testing.T) {
 				}
 			}
 			vs := judgeCrashRun(s)
-			vs = append(vs, recoverAndJudge(s, second)...)
-			vs = append(vs, filterProps(Judge(s), "C06")...)
-			// torn effects show up as C05-J2 / C08-B1,B2 on the transactions before the crash: they count for C06 here
-			for _, v := range Judge(s) {
-				if (v.Prop == "C05" && v.Code == "J2") || (v.Prop == "C08" && (v.Code == "B1" || v.Code == "B2")) || (v.Prop == "C01" && v.Code == "I1") {
+			vs = append(vs, recoverAndJudge(s, second, []int64{0, 0, 1500, 5000, 30000}[k%5])...)
+			all := Judge(s)
+			vs = append(vs, filterProps(all, "C06")...)
+			known := core.KnownKeys()
+			for _, v := range all {
+				switch {
+				case (v.Prop == "C05" && v.Code == "J2") || (v.Prop == "C08" && (v.Code == "B1" || v.Code == "B2")) || (v.Prop == "C01" && v.Code == "I1"):
+					// torn effects show up as C05-J2 / C08-B1,B2 on the transactions before the crash: they count for C06 here
 					vs = append(vs, Violation{"C06", "D3/" + v.Prop + "-" + v.Code, v.Key, v.Msg})
+				case v.Prop != "C06" && v.Prop != "C12" && !(v.Key != "" && known[v.Key]) && !baseMsgs[v.Prop+v.Code]:
+					// "background processing resumes from the stored state": whatever the statement-derived oracles of the
+					// other properties (occurrences fired once and in order, time-outs, leases, dispatch) object to in the
+					// crashed-and-recovered run but not in the crash-free run of the same case is a loss across the restart
+					vs = append(vs, Violation{"C06", "D4/" + v.Prop + "-" + v.Code, "", "after the crash and recovery (downtime included): " + v.Msg})
 				}
 			}
 			switch {
